@@ -106,3 +106,11 @@ add("C12", "exploration",
     "Child interpreter has a 1 s limit (spurious timeouts retried, else inconclusive); results are numbers/booleans.",
     "property-based testing (Hypothesis): direct Python evaluation as reference model + metamorphic literal twin",
     "DESIGN.md section 12")
+add("C10", "exploration",
+    "Generated hostile inputs (arbitrary text, prefixes and single edits of valid programs, unsupported constructs, "
+    "failing/printing/non-terminating constexpr bodies, option vectors as dataclass and dict): compile_code must "
+    "return within a cap, raise nothing, return a well-formed verdict with consistent statistics or an in-range "
+    "position, and leave no child process.",
+    "Wall-clock caps are generous and cap hits must reproduce twice; real astroid inference (no speed instrumentation).",
+    "property-based robustness testing / fuzzing (Hypothesis): mutation + grammar-of-invalid-inputs with a validity-of-verdict oracle",
+    "DESIGN.md section 10")
